@@ -4,11 +4,14 @@
 # seedeval.sh, result written to /verif/seeded/<id>/detected.txt. Removes the worktree afterwards.
 set -u
 # evaluate against a frozen snapshot of the committed /verif, so that later edits do not interfere
-SNAPDIR=/tmp/verifsnap
-rm -rf "$SNAPDIR"; git -C /verif worktree prune
-git -C /verif worktree add --detach "$SNAPDIR" HEAD -q || exit 2
-export VERIF_SNAPSHOT="$SNAPDIR"
-echo "snapshot of /verif at $(git -C /verif rev-parse --short HEAD)"
+# (several instances may share one snapshot: set VERIF_SNAPSHOT to an existing one)
+if [ -n "${VERIF_SNAPSHOT:-}" ]; then SNAPDIR="$VERIF_SNAPSHOT"; OWN_SNAP=0; else
+  SNAPDIR=/tmp/verifsnap; OWN_SNAP=1
+  rm -rf "$SNAPDIR"; git -C /verif worktree prune
+  git -C /verif worktree add --detach "$SNAPDIR" HEAD -q || exit 2
+  export VERIF_SNAPSHOT="$SNAPDIR"
+fi
+echo "snapshot of /verif at $(git -C "$SNAPDIR" rev-parse --short HEAD)"
 cd /verif/seeded || exit 2
 IDS="${*:-$(ls -d */ | tr -d /)}"
 for id in $IDS; do
@@ -30,4 +33,4 @@ for id in $IDS; do
   git -C /repo worktree remove --force "$wt"
   rm -rf /tmp/seedeval/_tmp_seedwt_$id
 done
-git -C /verif worktree remove --force "$SNAPDIR"
+[ "$OWN_SNAP" = 1 ] && git -C /verif worktree remove --force "$SNAPDIR"
